@@ -184,6 +184,40 @@ def mask_time(text):
     return re.sub(r"(FILE_NAME\s*\(\s*'[^']*'\s*,\s*)'[^']*'", r"\1'<time>'", text or "")
 
 
+def parse_header(text):
+    """{ENTITY: [parameters]} of the header section, or an error string"""
+    try:
+        a = text.index("HEADER;") + 7
+        b = text.index("ENDSEC;", a)
+        p = G._P(text[a:b])
+        out = {}
+        while p.peek():
+            n = p.ident()
+            out[n.upper()] = p.params()
+            p.eat(";")
+        return out
+    except Exception as e:
+        return f"{type(e).__name__}: {e}"
+
+
+def header_diff(a_text, b_text):
+    """None when the two files have the same header apart from FILE_NAME's time stamp"""
+    a, b = parse_header(a_text), parse_header(b_text)
+    if isinstance(a, str) or isinstance(b, str):
+        return f"header not parsable: {a if isinstance(a, str) else b}"
+    if sorted(a) != sorted(b):
+        return f"header entities {sorted(a)} became {sorted(b)}"
+    for n in a:
+        if len(a[n]) != len(b[n]):
+            return f"{n}: {len(a[n])} parameters became {len(b[n])}"
+        for k, (x, y) in enumerate(zip(a[n], b[n])):
+            if n == "FILE_NAME" and k == 1:
+                continue
+            if not val_equal(x, y):
+                return f"{n} parameter {k + 1}: {G.render_val(x)} became {G.render_val(y)}"
+    return None
+
+
 def parse_written(text):
     """independent reader over the implementation's output: (header text, [Inst]) or an error string"""
     try:
